@@ -31,12 +31,14 @@ PROPS = {
         "rule": "one run = 4..23 measurements of the real IPClient (basic or interleaved mode; with NTS over the real key exchange in 1/3 of the runs) against real listeners while an attacker that sees each request "
                 "delivers 1..2 crafted datagrams before the genuine response (withheld in 1/4 of the attacked exchanges): arbitrary bytes, the genuine response with LI / version / mode / stratum / origin / receive / transmit changed, "
                 "origin zeroed, transmit before receive, another source address or port, replays of earlier responses, forged responses from another source, the request reflected, NTS fields stripped or unique identifier changed; "
+                "every 4th run is the SCION half: the real SCIONClient against real runSCIONServer listeners through a relay router, with 1..3 crafted SCION packets per attacked exchange (the genuine response with another source "
+                "ISD-AS or host, another destination ISD-AS or host, source and destination swapped, NTP fields changed, truncated, replays, the reflected request, forged responses from another AS, random bytes), so that the single retry is regularly used up before the packet of interest arrives; "
                 "non-trivial = at least one crafted datagram and two measurements; distinct = distinct event-log hash",
-        "required_probes": ["clean-exchange", "succeeded-under-attack", "measurement-failed"],
-        "components": {"real": ["core/client IPClient receive loop", "net/ntp ValidateResponseMetadata/Timestamps", "net/nts DecodePacket/ProcessResponse", "core/server runIPServer"],
+        "required_probes": ["clean-exchange", "succeeded-under-attack", "measurement-failed", "scion-succeeded-under-attack"],
+        "components": {"real": ["core/client IPClient and SCIONClient receive loops", "net/ntp ValidateResponseMetadata/Timestamps", "net/nts DecodePacket/ProcessResponse", "core/server runIPServer, runSCIONServer"],
                        "stub": dict(STUBS_COMMON, **{"kernel UDP": "simnet", "attacker": "scripted injector"})},
         "assumptions": ["'comes from the queried server' is judged on the source address (a reply may come from any port of that address)",
-                        "IP transport only in this check (the SCION source/destination clause is exercised by C13's world)"],
+                        "NTS is exercised over IP only; the SCION half runs without NTS and without DRKey authentication (C13 covers the latter)"],
     },
     "C06": {
         "level": "exploration",
@@ -120,7 +122,7 @@ PROPS = {
                 "later runs sample bit flips, every 16-bit length word set to 0,1,3,4,-4,+4,0xffff,15,16,17, the client's own request reflected as a response, a genuine response to an earlier request replayed, and unmodified replays; "
                 "non-trivial = at least two tampered packets judged; distinct = distinct event-log hash",
         "exhaustive_part": "single-bit flips of one request and one response at pool level 8: 4032 cases, enumerated completely when the batch has at least 32 runs (quick tier: 160 runs)",
-        "required_probes": ["genuine-accepted", "request-tamper-rejected", "response-tamper-rejected", "genuine-accepted-after-tampered", "unauthenticated-position"],
+        "required_probes": ["genuine-accepted", "request-tamper-rejected", "response-tamper-rejected", "genuine-accepted-after-tampered", "unauthenticated-position", "resealed-other-identifier"],
         "components": {"real": ["net/nts DecodePacket, ProcessRequest, ProcessResponse, authenticate", "net/ntske cookies (Decode, Decrypt), Provider", "core/server runIPServer", "core/client IPClient", "NTS-KE over real TLS"],
                        "stub": dict(STUBS_COMMON, **{"kernel UDP/TCP": "simnet", "attacker": "scripted re-delivery of captured packets"})},
         "assumptions": ["a change is 'accepted' by a listener iff it answers, by the client iff the tampered datagram is the one it had read last when it reported an offset",
@@ -199,7 +201,7 @@ PROPS = {
                 "writes one TLS record per piece; (b) six NTS-protected exchanges with losses whose datagrams are decoded and re-encoded in flight (NTP header identity, accessors, NTS field kinds/alignment vs the harness's walker); "
                 "(c) round trips of generated values through the real codecs: NTP headers (8/16-bit fields cycled with the run index), CSPTP messages and both TLVs with and without server state, plain and sealed server cookies with unequal key lengths, "
                 "NTS requests/responses at every pool level, NTS-KE records; non-trivial = at least two segmented decodes; distinct = distinct event-log hash",
-        "required_probes": ["segmentation-checked", "codecs-checked", "nts-datagram-monitored"],
+        "required_probes": ["segmentation-checked", "codecs-checked", "nts-datagram-monitored", "unaligned-cookie-request"],
         "components": {"real": ["net/ntske ReadData, ExchangeMsg.Pack, cookies", "net/nts EncodePacket/DecodePacket/Process*", "net/ntp EncodePacket/DecodePacket", "net/csptp Encode*/Decode*", "core/server newNTSKEMsg", "crypto/tls"],
                        "stub": dict(STUBS_COMMON, **{"TCP": "simnet streams with explicit cut positions"})},
         "assumptions": ["the 'for all field values' quantifier of the codec clauses is covered by generation only (8/16-bit fields are swept across the runs of a batch, wider fields are random); only the segmentation clause is a schedule property",
